@@ -666,7 +666,11 @@ class PeptideVariantGraph():
                 continue
 
             if cur.seq is None:
-                for out_node in cur.out_nodes:
+                # Visit the reading frames in a fixed order. Nodes that bridge
+                # two reading frames can be reached from either, so the order
+                # must not depend on set iteration.
+                for out_node in sorted(cur.out_nodes,
+                        key=lambda x: x.reading_frame_index or 0):
                     queue.appendleft(out_node)
                 continue
 
